@@ -517,23 +517,9 @@ Section SigConv.
       post (convert_destruct_assignment swidth kids c) (good_doc (tsigs kids)).
     Proof. flow_conv convert_destruct_assignment. Qed.
     Lemma cons_convert_set_rule c :
-      all_kept (fun c => is_expr c || kind_eqb (kind_of c) KArgs) (map bt kids) &&
-      forallb (fun c => negb (kind_eqb (kind_of c) KArgs) || paren_args_only (children c)) (map bt kids) = true ->
+      all_kept (fun c => is_expr c || kind_eqb (kind_of c) KArgs) (map bt kids) = true ->
       post (convert_set_rule swidth kids c) (good_doc (tsigs kids)).
-    Proof.
-      intros Hk2. apply andb_prop in Hk2. destruct Hk2 as [Hk Hpa]. unfold convert_set_rule. apply flow_like_sig.
-      flow_setup tt. intros c0.
-      pose proof (proj1 (forallb_forall _ _) Hpa (bt child) (in_map bt _ _ Hin)) as Hp. cbn beta in Hp.
-      destruct (is_expr (bt child)) eqn:E1.
-      { pstep Hsg Hsc. apply post_ret. fsimp. split; assumption. }
-      destruct (kind_eqb (bk child) KArgs) eqn:E2.
-      { unfold bk in E2. rewrite E2 in Hp. cbn in Hp.
-        apply (post_bind _ _ (good_doc (tsig (bt child)))).
-        - apply (sgood_call _ _ Hsg Hsc). cbn. unfold is_kind. rewrite E2, Hp. reflexivity.
-        - intros d [Hd Wd]. apply post_ret. fsimp. split; assumption. }
-      apply post_ret. fsimp. unfold bk in E2. rewrite Hgen, E1, E2 in Hkeep. cbn in Hkeep. unfold sig_empty in Hkeep.
-      destruct (tsig (bt child)); [reflexivity|discriminate].
-    Qed.
+    Proof. flow_conv convert_set_rule. Qed.
     Lemma cons_convert_show_rule c :
       all_kept is_expr (map bt kids) = true -> post (convert_show_rule swidth kids c) (good_doc (tsigs kids)).
     Proof. flow_conv convert_show_rule. Qed.
@@ -1311,7 +1297,7 @@ Section SigConv.
       pose proof (Hgood child Hin) as Hsg. pose proof (Hscope child Hin) as Hsc.
       split; [exact Hsc|]. intros Hgen c0.
       destruct (is_expr (bt child)) eqn:E1.
-      { pstep Hsg Hsc. apply post_ret. fsimp. split; assumption. }
+      { unfold math_operand_req. destruct (is_code_mode (c_mode c0)); pstep Hsg Hsc; apply post_ret; fsimp; split; assumption. }
       destruct (kind_eqb (bk child) KSpace) eqn:E2.
       { apply post_ret. fsimp. apply (sc_quiet _ Hsc). unfold bk in E2. apply keq in E2. rewrite E2. reflexivity. }
       apply post_ret. fsimp. apply good_trivia; [exact Hsc|]. apply math_child_facts; assumption.
@@ -1326,7 +1312,7 @@ Section SigConv.
       pose proof (Hgood child Hin) as Hsg. pose proof (Hscope child Hin) as Hsc.
       split; [exact Hsc|]. intros Hgen c0.
       destruct (is_expr (bt child)) eqn:E1.
-      { pstep Hsg Hsc. apply post_ret. fsimp. split; assumption. }
+      { unfold math_operand_req. destruct (is_code_mode (c_mode c0)); pstep Hsg Hsc; apply post_ret; fsimp; split; assumption. }
       destruct (kind_eqb (bk child) KSpace) eqn:E2; cbn [negb].
       { apply post_ret. fsimp. apply (sc_quiet _ Hsc). unfold bk in E2. apply keq in E2. rewrite E2. reflexivity. }
       apply post_ret. fsimp. apply good_trivia; [exact Hsc|]. apply math_child_facts; assumption.
